@@ -839,6 +839,9 @@ class TIMachine(FormatMachine):
             if "-" in (dict(dict(secs).get("general", [])).get("variant") or "-"):
                 return "noop-dashed-main-variant"       # pre-productmd files have no dashed variant names
             text = render(keep)
+            # the mapping of a header-less file is undocumented except for what the properties say themselves: every
+            # (relative) checksum path keeps exactly the algorithm and value the file gives for it (C16)
+            partial = {"checksums": copy.deepcopy(exp["checksums"])}
             exp = None
         else:
             vt = tuple(int(x) for x in ver.split("."))
@@ -859,6 +862,8 @@ class TIMachine(FormatMachine):
         self.fs.put(path, text)
         self.durable[path] = {"expected": exp, "bytes": self.fs.get(path), "clean": True, "legacy": True, "legacy_version": ver,
                               "legacy_prop": op.get("tag", "C05"), "source": "downgrade", "kw": {}}
+        if ver == "0.0":
+            self.durable[path]["partial"] = partial
         return "downgraded:" + ver
 
     # ---- C17: a pre-productmd reader given only the compatibility sections ---------------------------------------
@@ -874,6 +879,8 @@ class TIMachine(FormatMachine):
             return "noop-heuristic-name"
         if re.search(r"[-_]", exp["release"]["version"]):
             return "noop-version"
+        if int(exp["tree"]["build_timestamp"]) == 0:
+            return "noop-zero-timestamp"      # |ts| < 1 truncates to 0, which no reader takes for a timestamp
         if "-" in (inimod.as_dict(self.fs.get(path).decode("utf-8")).get("general", {}).get("variant") or "-"):
             return "noop-dashed-main-variant"     # pre-productmd files have no dashed variant names
         sections, _ = inimod.parse(self.fs.get(path).decode("utf-8"))
